@@ -13,6 +13,7 @@ RULE_MODULES: Dict[str, str] = {
     "R5": "r05_mintable",
     "R6": "r06_order",
     "R7": "r07_sites",
+    "R17": "r17_dataflow",
     "R19": "r19_cyclegate",
     "R20": "r20_connect",
     "R22": "r22_classify",
